@@ -866,16 +866,32 @@ class _Path:
             return False
         return s.o._lookup(p, follow=False) is not None
 
+    # like their os.path originals these are stat() calls (a fault point) whose every OSError reads as "no"
     def isfile(s, p):
-        e = s.o._lookup(_chk(p))
+        p = _chk(p)
+        try:
+            s.o._pt("stat", path=p)
+        except OSError:
+            return False
+        e = s.o._lookup(p)
         return e is not None and e.kind == "file"
 
     def isdir(s, p):
-        e = s.o._lookup(_chk(p))
+        p = _chk(p)
+        try:
+            s.o._pt("stat", path=p)
+        except OSError:
+            return False
+        e = s.o._lookup(p)
         return e is not None and e.kind == "dir"
 
     def islink(s, p):
-        e = s.o._lookup(_chk(p), follow=False)
+        p = _chk(p)
+        try:
+            s.o._pt("stat", path=p)
+        except OSError:
+            return False
+        e = s.o._lookup(p, follow=False)
         return e is not None and e.kind == "link"
 
     def getsize(s, p):
